@@ -29,7 +29,7 @@ Emit == (Len(hist) = GenDepth) => PrintT(<<"VH", ToJson(hist)>>)
 \* the configuration of the walk (checks/c02.py GEN_CONFIG is the same object for the executor)
 gParent == ("qa" :> "-") @@ ("qb" :> "-") @@ ("cc" :> "qa")
 gMax    == ("qa" :> 3) @@ ("qb" :> 1) @@ ("cc" :> 2)
-gExpiry == ("qa" :> 2) @@ ("qb" :> 3) @@ ("cc" :> 2)
-gGc     == ("qa" :> 2) @@ ("qb" :> 1) @@ ("cc" :> 2)
+gExpiry == ("qa" :> 4) @@ ("qb" :> 6) @@ ("cc" :> 4)      \* ticks of 500 ms
+gGc     == ("qa" :> 4) @@ ("qb" :> 2) @@ ("cc" :> 4)
 gLeaves == {<<"cc">>, <<"qa", "qb">>, <<"qb">>}
 =============================================================================
